@@ -347,6 +347,7 @@ def history_main(argv):
     import polyply.src.gen_itp as gi
     res = []
     for run in spec["runs"]:
+        run = {k: v for k, v in run.items() if k != "declared_failure"}
         out = Path(run["out"])
         before = out.read_text() if out.exists() else None
         sys.argv = ["polyply", "gen_params"] + [str(a) for a in run.get("argv", [])]
